@@ -302,6 +302,27 @@ def c10(rec):
     if isinstance(j, dict) and 'generation' in j and 'uuid' in j and j['uuid'] in a['rps']:
         if j['generation'] != a['rps'][j['uuid']]['gen']:
             out.append(('c10:returned-generation-differs:%s' % o, ''))
+    # ... through EVERY route that reports a provider generation (the listing builds its rows with a query of its own)
+    changed = [u for u, r in a['rps'].items() if r['gen'] != b['rps'].get(u, {}).get('gen')]
+    if changed:
+        from harness.app import App
+        app = App._instance
+        if app is not None:
+            lst = app.call('GET', '/resource_providers', version='1.39')
+            if lst.status == 200:
+                for row in lst.json['resource_providers']:
+                    if row['uuid'] in a['rps'] and row['generation'] != a['rps'][row['uuid']]['gen']:
+                        out.append(('c10:listed-generation-differs:%s' % o, '%s listed with generation %s, stored %s'
+                                    % (row['uuid'], row['generation'], a['rps'][row['uuid']]['gen'])))
+            u = changed[0]
+            for path, key in (('/resource_providers/%s' % u, 'generation'),
+                              ('/resource_providers/%s/inventories' % u, 'resource_provider_generation'),
+                              ('/resource_providers/%s/traits' % u, 'resource_provider_generation'),
+                              ('/resource_providers/%s/aggregates' % u, 'resource_provider_generation')):
+                r = app.call('GET', path, version='1.39')
+                if r.status == 200 and r.json.get(key) != a['rps'][u]['gen']:
+                    out.append(('c10:read-generation-differs:%s' % path.rsplit('/', 1)[-1 if path.count('/') > 2 else 0], '%s reports %s, stored %s'
+                                % (path, r.json.get(key), a['rps'][u]['gen'])))
     return out
 
 
